@@ -437,6 +437,9 @@ func c05Full(t *rapid.T) {
 		// the tool resumes from a checkpoint of an earlier source incarnation (other run id, offset beyond what the source
 		// announces now); the source answers with a full resync: the announced run id and offset are the ones that count
 		ask = "0123456789abcdef0123456789abcdef01234567"
+		if rapid.Bool().Draw(t, "sameRunID") {
+			ask = c.runid // the same master, but it can no longer serve the requested offset from its backlog
+		}
 		staleOff := c.offset + int64(rapid.SampledFrom([]int{1, 1000, 1 << 30}).Draw(t, "staleAhead"))
 		ds.VerifSetResume(ask, 0, staleOff, "")
 		desc += fmt.Sprintf(" resumed-from-stale-checkpoint(%s,%d)", ask[:6], staleOff)
